@@ -115,6 +115,10 @@ class RaftOracle(object):
         prop = INV_PROP.get(inv, '?')
         if inv in self.seen_inv:
             return
+        if self.seen_inv:
+            # which invariants had fired earlier in this run (a known finding's consequences are matched by it)
+            detail = dict(detail or {})
+            detail.setdefault('after', sorted(self.seen_inv))
         self.seen_inv.add(inv)
         v = Violation(inv, prop, msg, self.w.evno, detail)
         self.violations.append(v)
